@@ -224,6 +224,13 @@ W.hole_contract = _hole
 
 
 class StructExecutor(LeafExecutor):
+    def call_function(self, fn, args, kwargs, node, fr, **kw):
+        # C11: a read from the body's own stack inside a lambda / function body (also in the lowered early exit)
+        # happens while the body's own input scope is the innermost one
+        if getattr(fn, "name", "") == "pop" and fr.fn_name.startswith(("_lambda", "VAR_")) and args and args[0] is fr.env.get("stack") and "ins0" in fr.env:
+            self.oblige("C11-reads-in-own-scope", self.eval_clause("len(ctx.inputs) == len(ins0) + 1", fr), node, tag=f"[{fr.fn_name}]")
+        return super().call_function(fn, args, kwargs, node, fr, **kw)
+
     def e_Name(self, n, fr):
         if n.id.startswith("HOLE_"):
             return Hole(int(n.id[5:]))
